@@ -382,12 +382,15 @@ def gen_ops(rng: Rng, case: dict, n: int) -> List[List[str]]:
 
 
 # ------------------------------------------------------------------------------------------ bounded-exhaustive family
-def exhaustive_cases(depth: int, durs=(0, 1, 2, 3)) -> List[dict]:
+def exhaustive_cases(depth: int, durs=(0, 1, 2, 3), small: bool = False) -> List[dict]:
     """Every sequence of length `depth` over a small alphabet on a node with one extra service, one folder with one file;
-    all timers share one duration d."""
+    all timers share one duration d; three ticks appended so that what was started can finish."""
     alphabet = [["tick"], ["sw", "svc", "dns-server", "compromise"], ["sw", "svc", "dns-server", "fix"], ["osscan"],
                 ["folder", "d0", "scan"], ["folder", "d0", "restore"], ["file", "d0", "a.txt", "corrupt"], ["shutdown"],
                 ["startup"]]
+    if small:
+        alphabet = [["tick"], ["sw", "svc", "dns-server", "compromise"], ["sw", "svc", "dns-server", "fix"], ["osscan"],
+                    ["folder", "d0", "scan"], ["shutdown"]]
     cases = []
 
     def rec(prefix):
@@ -464,4 +467,66 @@ def timing_oracle(durs=(0, 1, 2, 3, 5)) -> List[dict]:
                     if v != need:
                         bad.append({"what": f"{k} completed after {v} ticks of a powered-on node, expected {need}", "d": d,
                                     "freeze_at": freeze_at, "clause": k})
+    return bad
+
+
+# ------------------------------------------------------------------------------------------ database restore (implementation only)
+def db_restore_oracle() -> List[dict]:
+    """The one writer of a *visible* value outside scan: DatabaseService.restore_backup replaces database.db by the backup copy
+    and carries the old file's visible status over. Statement clause: visible health changes only by scanning. Scenario:
+    database server + FTP backup server; back up; corrupt the file [scan it or not]; [delete it]; fix the service; tick until the
+    fix completes and the restore runs. Expect: service GOOD after exactly max(1,d) ticks, file actual GOOD, visible unchanged."""
+    from ipaddress import IPv4Address
+    from primaite.simulator.network.container import Network
+    from primaite.simulator.network.hardware.nodes.host.computer import Computer
+    from primaite.simulator.system.services.database.database_service import DatabaseService
+    from primaite.simulator.system.services.ftp.ftp_server import FTPServer
+    bad = []
+    for d in (0, 1, 3):
+        for scanned in (False, True):
+            for deleted in (False, True):
+                with contextlib.redirect_stdout(io.StringIO()):
+                    net = Network()
+                    a = Computer.from_config(dict(type="computer", hostname="db", ip_address="192.168.0.10", subnet_mask="255.255.255.0", start_up_duration=0))
+                    bsrv = Computer.from_config(dict(type="computer", hostname="bk", ip_address="192.168.0.11", subnet_mask="255.255.255.0", start_up_duration=0))
+                    a.power_on()
+                    bsrv.power_on()
+                    net.connect(a.network_interface[1], bsrv.network_interface[1])
+                    bsrv.software_manager.install(FTPServer)
+                    a.software_manager.install(DatabaseService)
+                    svc = a.software_manager.software["database-service"]
+                    svc.config.fixing_duration = d
+                    svc.configure_backup(IPv4Address("192.168.0.11"))
+                    if not svc.backup_database():
+                        bad.append({"what": "db-restore scenario: backup failed (scenario broken)", "d": d})
+                        continue
+                    svc.db_file.corrupt()
+                    if scanned:
+                        svc.db_file.scan()
+                    vis_before = svc.db_file.visible_health_status.name
+                    if deleted:
+                        svc.file_system.delete_file(folder_name="database", file_name="database.db")
+                    if not svc.fix():
+                        bad.append({"what": "db-restore scenario: fix refused", "d": d})
+                        continue
+                    good_at = None
+                    for t in range(max(1, d) + 2):
+                        net.pre_timestep(t + 2)
+                        net.apply_timestep(t + 2)
+                        if good_at is None and svc.health_state_actual.name == "GOOD":
+                            good_at = t + 1
+                            f = svc.db_file
+                            if f is None:
+                                bad.append({"what": "database file missing after the fix completed", "d": d, "scanned": scanned, "deleted": deleted})
+                            else:
+                                if f.health_status.name != "GOOD":
+                                    bad.append({"what": f"restored database file is {f.health_status.name}, expected GOOD", "d": d,
+                                                "scanned": scanned, "deleted": deleted})
+                                if f.visible_health_status.name != vis_before:
+                                    bad.append({"what": f"visible health of database.db changed {vis_before} -> "
+                                                        f"{f.visible_health_status.name} without a scan (database restore)", "d": d,
+                                                "scanned": scanned, "deleted": deleted})
+                    if good_at != max(1, d):
+                        bad.append({"what": f"database service GOOD after {good_at} ticks, expected {max(1, d)}", "d": d,
+                                    "scanned": scanned, "deleted": deleted})
     return bad
